@@ -521,6 +521,51 @@ fn search(oracle: &str, seed: u64) -> Outcome {
                 }}
                 None
             }
+            // ------------------------------------------------ C14: scaling by a double (reference: the same IEEE operation done here, then classified and truncated)
+            "scale_f64" => {
+                domain = "IntervalDT / IntervalYM / Time x doubles {0, -0, subnormal, 1e-17, 1/3, 0.5, 1, 1.5, 3, 1e10, 1e300, inf, nan and negatives}: mul_f64 and div_f64 against classify(trunc(IEEE op))";
+                exhaustive = false;
+                let ks: Vec<f64> = vec![0.0, -0.0, 5e-324, 1e-300, 1e-17, 2.0e-16, 1.0 / 3.0, 0.5, 1.0, 1.0000000001, 1.5, 2.0, 3.0, 49.0, 1e10, 1e19, 1e300, f64::MAX, f64::INFINITY, f64::NAN];
+                let lim: f64 = 8_640_000_000_000_000_000.0;
+                let dts: Vec<i64> = vec![0, 1, -1, 999_999, 86_400_000_000, 86_399_999_999, 5_184_000_000_000_000_000, 8_639_999_999_999_999_999, 8_640_000_000_000_000_000, -8_640_000_000_000_000_000, 9_007_199_254_740_993];
+                let cls_dt = |p: f64, div0: bool| -> String {
+                    if div0 { "Err(DivideByZero)".into() } else if p.is_infinite() { "Err(NumericOverflow)".into() } else if p.is_nan() { "Err(InvalidNumber)".into() }
+                    else { let t = p.trunc(); if t >= -lim && t <= lim { format!("Ok({})", t as i64) } else { "Err(IntervalOutOfRange)".into() } } };
+                let show_dt = |r: Result<IntervalDT, sqldatetime::Error>| match r { Ok(v) => format!("Ok({})", v.usecs()), Err(e) => format!("Err({:?})", e) };
+                for &v in &dts { for &k0 in &ks { for sgn in [1.0f64, -1.0] {
+                    let k = k0 * sgn;
+                    n_eval += 2;
+                    let iv = IntervalDT::try_from_usecs(v).unwrap();
+                    let (e, a) = (cls_dt(v as f64 * k, false), show_dt(iv.mul_f64(k)));
+                    if e != a { fail!(format!("IntervalDT(usecs={}).mul_f64({:e})", v, k), e, a); }
+                    let (e, a) = (cls_dt(v as f64 / k, k == 0.0), show_dt(iv.div_f64(k)));
+                    if e != a { fail!(format!("IntervalDT(usecs={}).div_f64({:e})", v, k), e, a); }
+                    if (0..86_400_000_000).contains(&v) {
+                        n_eval += 2;
+                        let t = Time::try_from_usecs(v).unwrap();
+                        let (e, a) = (cls_dt(v as f64 * k, false), show_dt(t.mul_f64(k)));
+                        if e != a { fail!(format!("Time(usecs={}).mul_f64({:e})", v, k), e, a); }
+                        let (e, a) = (cls_dt(v as f64 / k, k == 0.0), show_dt(t.div_f64(k)));
+                        if e != a { fail!(format!("Time(usecs={}).div_f64({:e})", v, k), e, a); }
+                    }
+                }}}
+                let mlim: f64 = 2_136_000_000.0;
+                let yms: Vec<i32> = vec![0, 1, -1, 11, 12, 1_424_000_000, 2_135_999_999, 2_136_000_000, -2_136_000_000];
+                let cls_ym = |p: f64, div0: bool| -> String {
+                    if div0 { "Err(DivideByZero)".into() } else if p.is_infinite() { "Err(NumericOverflow)".into() } else if p.is_nan() { "Err(InvalidNumber)".into() }
+                    else { let t = p.trunc(); if t >= -mlim && t <= mlim { format!("Ok({})", t as i64) } else { "Err(IntervalOutOfRange)".into() } } };
+                let show_ym = |r: Result<IntervalYM, sqldatetime::Error>| match r { Ok(v) => format!("Ok({})", v.months()), Err(e) => format!("Err({:?})", e) };
+                for &v in &yms { for &k0 in &ks { for sgn in [1.0f64, -1.0] {
+                    let k = k0 * sgn;
+                    n_eval += 2;
+                    let iv = IntervalYM::try_from_months(v).unwrap();
+                    let (e, a) = (cls_ym(v as f64 * k, false), show_ym(iv.mul_f64(k)));
+                    if e != a { fail!(format!("IntervalYM(months={}).mul_f64({:e})", v, k), e, a); }
+                    let (e, a) = (cls_ym(v as f64 / k, k == 0.0), show_ym(iv.div_f64(k)));
+                    if e != a { fail!(format!("IntervalYM(months={}).div_f64({:e})", v, k), e, a); }
+                }}}
+                None
+            }
             "second_accessor" => {
                 domain = "second() of Time / Timestamp / IntervalDT / OracleDate: sub-minute counts {0,1,499999,500000,999999 us + whole seconds} under whole-minute parts from 0 to the range limits (beyond 2^53 us), both signs";
                 exhaustive = false;
@@ -811,7 +856,7 @@ fn esc(s: &str) -> String { s.replace('\\', "\\\\").replace('"', "\\\"") }
 fn main() {
     let args: Vec<String> = std::env::args().collect();
     if args.len() >= 2 && args[1] == "list" {
-        println!("date_extract date_from_ymd date_from_days date_add_sub_days date_day_of_week date_add_months ts_add_months last_day_of_month date_trunc date_round ts_trunc ts_round od_trunc od_round ts_split time_tuple time_add_interval interval_ctor od_from_timestamp od_add_days ts_add_days naive_carry parse_grid format_grid and_hms linear_arith mixed_cmp second_accessor");
+        println!("date_extract date_from_ymd date_from_days date_add_sub_days date_day_of_week date_add_months ts_add_months last_day_of_month date_trunc date_round ts_trunc ts_round od_trunc od_round ts_split time_tuple time_add_interval interval_ctor od_from_timestamp od_add_days ts_add_days naive_carry parse_grid format_grid and_hms linear_arith mixed_cmp second_accessor scale_f64");
         return;
     }
     if args.len() >= 3 && args[1] == "search" {
